@@ -79,25 +79,20 @@ fs(const struct suite *t, int n, const char *name)
 static void
 pick(struct rng *r, const struct suite **cs, const struct suite **hs)
 {
-        static const char *cn[] = { "aes-cbc-128", "aes-cbc-256", "aes-cfb-128", "docsis-sec-128", "des-cbc",     "3des-cbc",
-                                    "docsis-des",  "aes-ctr-128", "aes-ecb-192", "zuc-eea3-128",   "snow3g-uea2", "kasumi-uea1",
-                                    "chacha20",    "sm4-cbc",     "snow-v",      "aes-ctr-bit-128" };
-        static const char *hn[] = { "hmac-sha1", "hmac-sha256", "hmac-sha512", "hmac-md5",   "sha1",       "sha384",
-                                    "aes-xcbc",  "aes-cmac",    "zuc-eia3",    "snow3g-uia2", "kasumi-uia1", "poly1305",
-                                    "ghash",     "crc32-eth",   "sm3",         "aes-gmac-128" };
-        static const char *an[] = { "aes-gcm-128", "aes-gcm-256", "aes-ccm-128", "chacha20-poly1305", "snow-v-aead", "sm4-gcm",
-                                    "docsis-crc32-128" };
+        /* any suite of the three tables (every algorithm the library offers), sometimes a chained cipher + HMAC pair */
+        static const char *cn[] = { "aes-cbc-128", "aes-cbc-256", "aes-cfb-128", "docsis-sec-128", "des-cbc", "3des-cbc", "docsis-des" };
+        static const char *hn[] = { "hmac-sha1", "hmac-sha256", "hmac-sha512", "hmac-md5" };
         *cs = *hs = NULL;
         int k = (int) rng_below(r, 10);
         if (k < 4)
-                *cs = fs(g_cipher_suites, g_n_cipher_suites, cn[rng_below(r, ARRAY_SZ(cn))]);
+                *cs = &g_cipher_suites[rng_below(r, (uint32_t) g_n_cipher_suites)];
         else if (k < 7)
-                *hs = fs(g_hash_suites, g_n_hash_suites, hn[rng_below(r, ARRAY_SZ(hn))]);
+                *hs = &g_hash_suites[rng_below(r, (uint32_t) g_n_hash_suites)];
         else if (k < 8) {
-                *cs = fs(g_cipher_suites, g_n_cipher_suites, cn[rng_below(r, 7)]);
-                *hs = fs(g_hash_suites, g_n_hash_suites, hn[rng_below(r, 4)]);
+                *cs = fs(g_cipher_suites, g_n_cipher_suites, cn[rng_below(r, ARRAY_SZ(cn))]);
+                *hs = fs(g_hash_suites, g_n_hash_suites, hn[rng_below(r, ARRAY_SZ(hn))]);
         } else
-                *cs = fs(g_aead_suites, g_n_aead_suites, an[rng_below(r, ARRAY_SZ(an))]);
+                *cs = &g_aead_suites[rng_below(r, (uint32_t) g_n_aead_suites)];
 }
 
 static void
@@ -118,10 +113,8 @@ prog_done(struct mmgr *mm, IMB_JOB *job, void *arg)
                 char ctx[64];
                 snprintf(ctx, sizeof ctx, "mode %s", p->mode);
                 item_check(it, job, "C17", mm, ctx);
-                if (it->cipher != IMB_CIPHER_NULL)
-                        h = fnv1(h, it->inplace ? it->src + it->c_off : it->dst, it->dst_len);
-                if (it->tag_len)
-                        h = fnv1(h, it->tag, it->tag_len);
+                uint64_t oh = item_output_hash(it);
+                h = fnv1(h, &oh, sizeof oh);
         }
         h = fnv1(h, &idx, sizeof idx);
         p->cur->h = h;
@@ -328,9 +321,11 @@ compare(const struct prog *ref, const struct prog *p, const char *mode, const ch
                 char key[200], det[400], rp[200];
                 snprintf(key, sizeof key, "C17|%s|%s|%s|%s", variant_name(g_cfg_variant[p->cfg]), mode, opname[ref->ops[i].kind], what);
                 snprintf(det, sizeof det,
-                         "call %d (%s) of the program differs from the run alone: job %d/%d status %d/%d errno field %d/%d imb_get_errno %d/%d hash %llx/%llx; "
+                         "call %d (%s; job suite %s) of the program differs from the run alone: job %d/%d status %d/%d errno field %d/%d imb_get_errno %d/%d hash %llx/%llx; "
                          "managers in the case: %s",
-                         i, opname[ref->ops[i].kind], a->ret, b->ret, a->status, b->status, a->err, b->err, a->err_api, b->err_api, (unsigned long long) a->h,
+                         i, opname[ref->ops[i].kind],
+                         a->ret >= 0 && a->ret < PN && ref->it[a->ret] ? (ref->it[a->ret]->cipher != IMB_CIPHER_NULL ? cipher_name(ref->it[a->ret]->cipher) : hash_name(ref->it[a->ret]->hash)) : "-",
+                         a->ret, b->ret, a->status, b->status, a->err, b->err, a->err_api, b->err_api, (unsigned long long) a->h,
                          (unsigned long long) b->h, combo);
                 snprintf(rp, sizeof rp, "{\"engine\":\"threads\",\"case\":%ld,\"mode\":\"%s\"}", g_case_no, mode);
                 ev_violation("C17", key, det, rp);
